@@ -10,7 +10,8 @@ OBLIGATIONS = ["valid_or_impossible_oneagent", "valid_or_impossible_gh_cgdp",
                "valid_or_impossible_heur_comhost", "must_host_ignored_refuted", "adhoc_secp_refuted",
                "valid_or_impossible_adhoc", "must_host_honoured_adhoc", "gh_cgdp_pins_zero_cost",
                "must_host_by_cost_gh_cgdp", "ilp_feasible_decodes_valid_oilp",
-               "ilp_feasible_decodes_valid_fgdp", "ilp_must_host_ignored_refuted"]
+               "ilp_feasible_decodes_valid_fgdp", "ilp_must_host_ignored_refuted", "valid_b_sound",
+               "heur_comhost_is_pure_greedy", "gh_cgdp_is_pure_greedy"]
 N_QUICK, N_THOROUGH = 400, 6000
 PARALLEL = 8
 SHARD = 100
@@ -22,26 +23,38 @@ RULE = ("seeded random DCOPs (1-4 binary variables, 0-4 constraints of arity 1-3
         "25%; adhoc on factor graphs, 30%: a factor hosted with one variable = the SECP shape); method drawn among oneagent, adhoc, gh_cgdp, heur_comhost, oilp_cgdp, ilp_fgdp (factor graphs "
         "only) and called through the API with random/shuffle/choice replaced by the case's draws and GLPK by "
         "PuLP's CBC in the driver process; non-trivial = at least 2 computations; distinct = distinct case JSON")
-MODELLED = ("theorems (all instances, all rankings/draws, termination of the backtracking loop included): "
-            "oneagent, gh_cgdp, heur_comhost return a mapping hosting every computation once on declared agents "
-            "within capacity, or ImpossibleDistributionException, never another error; refuted: must-host hints "
-            "(ignored by these methods), adhoc's SECP loop capacity. adhoc (3 loops, hints, retry) is modelled and "
-            "compared on every case but its validity is not a Coq theorem; the ILP methods are checked here by the "
-            "oracle only (their model and theorems are C24's); the distribute command (YAML front end) is not run.")
+MODELLED = ("theorems (all instances, all rankings/draws, termination of the backtracking loop / of the retry "
+            "included): oneagent, gh_cgdp, heur_comhost return a mapping hosting every computation once on declared "
+            "agents within capacity, or ImpossibleDistributionException, never another error; adhoc (3 loops, hints, "
+            "retry, every shuffle/choice oracle): the same plus must-host honoured, under the boolean guards hints_wfb "
+            "(well-formed hints) and secp_free (the input shape of finding C23-adhoc-secp-hostwith excluded); every "
+            "mapping adhoc returns honours must-host (no secp guard); gh_cgdp pins zero-hosting-cost computations on "
+            "the first such agent, hence honours must-host hints expressed that way; any feasible integral point of "
+            "the oilp_cgdp / ilp_fgdp ILP (C24's model) decodes to a valid mapping; refuted: must-host hints (ignored "
+            "by oneagent, gh_cgdp, heur_comhost, and by the ILP rows), adhoc's SECP loop capacity. Correspondence: "
+            "model = implementation on every non-ILP case; for adhoc also Coq guard = harness classifier predicate and "
+            "guards => observed result valid (valid_b, proved sound). The ILP methods are run and checked here by the "
+            "oracle only (their model is C24's); the distribute command (YAML front end) is not run.")
 META = dict(
-    level_text=("Proof (Coq) that in the executable model of oneagent, gh_cgdp and heur_comhost (faithful to "
-                "the code incl. zero-hosting-cost pinning, stale candidate lists after a backtrack, random "
-                "tie-breaks as an oracle, the float ranking as a parameter) every run ends with a mapping hosting "
-                "every computation exactly once on a declared agent within every capacity, or with "
-                "ImpossibleDistributionException - for all graphs, agents, costs and draws; the must-host clause "
-                "is refuted for these methods and recorded as a known finding. adhoc is modelled and tied by the "
-                "differential run only; ILP methods by the oracle + C24. Model tied to /repo by a differential run "
-                "(real code vs vm_compute, PrimFloat for the 0.8/0.2 cost) on every check."),
-    level_note=("Partial: adhoc validity and the must-host clause are not theorems (adhoc: correspondence + oracle; "
-                "must-host: refuted, finding C23-must-host-ignored). Hypotheses: unique names (wf); heur_comhost: "
-                "capacities >= 0. The `pydcop distribute` command line is not exercised (only its timeout keyword "
-                "was repaired). Trusted: Coq kernel/vm_compute incl. primitive floats in the correspondence only "
-                "(no theorem depends on them), M_Dist.v, harness, PuLP CBC."),
+    level_text=("Proof (Coq) that in the executable model of oneagent, gh_cgdp, heur_comhost (faithful to the "
+                "code incl. zero-hosting-cost pinning, stale candidate lists after a backtrack, random tie-breaks as "
+                "an oracle, the float ranking as a parameter) and adhoc (must-host phase, SECP loop, scoring loop with "
+                "strict capacity test and host_with lookup, retry; shuffle/choice as oracles) every run ends with a "
+                "mapping hosting every computation exactly once on a declared agent within every capacity (adhoc: and "
+                "honouring must-host hints), or with ImpossibleDistributionException - for all graphs, agents, costs, "
+                "hints and draws; adhoc under two boolean input guards (well-formed hints; no SECP-shaped host_with "
+                "hint = the recorded finding, refuted without the guard). The must-host clause is refuted for the "
+                "hint-blind methods (finding) and proved for adhoc unconditionally and for gh_cgdp when the hint is "
+                "also a zero hosting cost. ILP methods: every feasible integral point of C24's ILP model decodes to "
+                "a valid mapping. Model tied to /repo by a differential run (real code vs vm_compute, PrimFloat for "
+                "the 0.8/0.2 cost; Coq guards vs the harness' classifier; guards => observed mapping valid)."),
+    level_note=("Partial: must-host is false for oneagent/gh_cgdp/heur_comhost/ILP (finding C23-must-host-ignored); "
+                "adhoc validity carries the guard secp_free (finding C23-adhoc-secp-hostwith). Hypotheses: unique "
+                "names (wf); heur_comhost: capacities >= 0; adhoc: hints_wfb, secp_free, each shuffle a permutation. "
+                "ILP: the solver is an oracle and the rows-to-feasibility tie is C24's correspondence. The `pydcop "
+                "distribute` command line is not exercised (only its timeout keyword was repaired). Trusted: Coq "
+                "kernel/vm_compute incl. primitive floats in the correspondence only (no theorem depends on them), "
+                "M_Dist.v, M_Dist2.v, harness, PuLP CBC."),
     technique="Coq proof over executable Gallina model + differential correspondence run + brute-force validity oracle",
     design_ref="DESIGN.md §5 C23",
 )
